@@ -1,11 +1,13 @@
 #!/bin/bash
 # runs every check's quick (or thorough) command, validates the evidence files
 tier=${1:-quick}; cd /verif
-for p in C01 C02 C03 C04 C05 C06 C07 C08 C09 C10 C11 C12 C13 C14 C15 C16 C17 C18 C19 C20; do
+L=${RUN_ALL_LOGS:-/tmp}; mkdir -p $L
+PROPS=${RUN_ALL_PROPS:-C01 C02 C03 C04 C05 C06 C07 C08 C09 C10 C11 C12 C13 C14 C15 C16 C17 C18 C19 C20}
+for p in $PROPS; do
   s=$(date +%s); rm -f evidence/$p.json
-  timeout 7200 ./check $p $tier > /tmp/run_$p.log 2>&1; rc=$?
+  timeout 7200 ./check $p $tier > $L/run_$p.log 2>&1; rc=$?
   e=$(( $(date +%s) - s ))
-  v=$(grep -c '^VIOLATION' /tmp/run_$p.log); k=$(grep -c '^KNOWN-FINDING' /tmp/run_$p.log); i=$(grep -c '^INCONCLUSIVE' /tmp/run_$p.log)
+  v=$(grep -c '^VIOLATION' $L/run_$p.log); k=$(grep -c '^KNOWN-FINDING' $L/run_$p.log); i=$(grep -c '^INCONCLUSIVE' $L/run_$p.log)
   ok=$(python3-vt -c "
 import json,jsonschema,sys
 try:
